@@ -46,6 +46,22 @@ pub const RSA_SPKI: [&[u8]; 5] = [
     include_bytes!("../../fixtures/keys/rsa-2048-e8388609.spki.der"),
     include_bytes!("../../fixtures/keys/rsa-2048-e2147483649.spki.der"),
 ];
+/// More RSA sizes (3072 and the largest supported, 8192 bits), made by OpenSSL. ring does not
+/// sign with 8192-bit keys, so these come with OpenSSL-made RSASSA-PSS signatures (salt length =
+/// digest length, MGF1 with the same digest) over `REFMSG`.
+pub const RSA_MORE_SPKI: [(&str, &[u8]); 2] = [
+    ("rsa3072", include_bytes!("../../fixtures/keys/rsa-3072.spki.der")),
+    ("rsa8192", include_bytes!("../../fixtures/keys/rsa-8192.spki.der")),
+];
+pub const RSA_3072_PK8: &[u8] = include_bytes!("../../fixtures/keys/rsa-3072.pk8.der");
+pub const REFMSG: &[u8] = include_bytes!("../../fixtures/keys/refmsg.bin");
+/// (key name, SPKI, signature made with SHA-256, signature made with SHA-512)
+pub const RSA_REFSIGS: [(&str, &[u8], &[u8], &[u8]); 4] = [
+    ("rsa2048a", include_bytes!("../../fixtures/keys/rsa-2048.spki.der"), include_bytes!("../../fixtures/keys/rsa-2048.pss-sha256.sig"), include_bytes!("../../fixtures/keys/rsa-2048.pss-sha512.sig")),
+    ("rsa3072", include_bytes!("../../fixtures/keys/rsa-3072.spki.der"), include_bytes!("../../fixtures/keys/rsa-3072.pss-sha256.sig"), include_bytes!("../../fixtures/keys/rsa-3072.pss-sha512.sig")),
+    ("rsa4096", include_bytes!("../../fixtures/keys/rsa-4096.spki.der"), include_bytes!("../../fixtures/keys/rsa-4096.pss-sha256.sig"), include_bytes!("../../fixtures/keys/rsa-4096.pss-sha512.sig")),
+    ("rsa8192", include_bytes!("../../fixtures/keys/rsa-8192.spki.der"), include_bytes!("../../fixtures/keys/rsa-8192.pss-sha256.sig"), include_bytes!("../../fixtures/keys/rsa-8192.pss-sha512.sig")),
+];
 pub const ALICE_PUB_PEM: &str = include_str!("../../fixtures/keys/alice.pub");
 
 /// A named signing key.
